@@ -256,6 +256,59 @@ def make_cases(ctx: Ctx) -> list[dict]:
         cases.append({'asn4': bases[bi]['asn4'], 'nlri': bases[bi]['kind'], 'code': -3, 'kind': 'fuzz', 'body': rig.join_body(wd, blk, nlri), 'origin': 'fuzz'})
     for n in (10, 400, 1200):
         cases.append({'asn4': True, 'nlri': 'v4', 'code': 100, 'kind': f'many-{n}', 'body': f7_body(n), 'origin': 'many'})
+
+    def one_corrupted(ts: list[dict], i: int, kind: str, asn4: bool) -> bytes | None:
+        """The bytes attribute i becomes under this corruption, when the corruption leaves the others alone."""
+        blk = rig.corrupt(kind, ts, i, rng, asn4)
+        pre, post = rig.ser(ts[:i]), rig.ser(ts[i + 1 :])
+        if blk is None or len(blk) < len(pre) + len(post) or not blk.startswith(pre) or (post and not blk.endswith(post)):
+            return None
+        return blk[len(pre) : len(blk) - len(post)]
+
+    # TWO attributes of one UPDATE are malformed: what the first one asks for does not make the second one go away
+    # (RFC 7606 3: the strongest of the approaches applies)
+    npair = 700 if ctx.tier == 'quick' else 20000
+    for _ in range(npair):
+        bi = rng.randrange(len(bases))
+        b = bases[bi]
+        wd, block, nlri = rig.split_body(bodies[bi])
+        ts = rig.base_tlvs(block)
+        if len(ts) < 2:
+            continue
+        i1, i2 = sorted(rng.sample(range(len(ts)), 2))
+        k1, k2 = rng.choice(rig.KINDS), rng.choice(rig.KINDS)
+        x1, x2 = one_corrupted(ts, i1, k1, b['asn4']), one_corrupted(ts, i2, k2, b['asn4'])
+        if x1 is None or x2 is None:
+            ctx.count('corruption-not-applicable')
+            continue
+        blk = rig.ser(ts[:i1]) + x1 + rig.ser(ts[i1 + 1 : i2]) + x2 + rig.ser(ts[i2 + 1 :])
+        if len(blk) <= 60000:
+            cases.append({'asn4': b['asn4'], 'nlri': b['kind'], 'code': ts[i1]['code'], 'kind': f'{k1}+{k2}', 'body': rig.join_body(wd, blk, nlri), 'origin': 'pair'})
+    # a NEXT_HOP attribute in an UPDATE whose routes are all in MP_REACH_NLRI (RFC 4760 3: SHOULD NOT be there, and is
+    # ignored when well-formed): well-formed or malformed, alone or in front of / behind another malformed attribute
+    nh_forms = [bytes([0x40, 3, 4, 192, 0, 2, 1]), bytes([0x40, 3, 16]) + bytes([0x20, 1, 0x0D, 0xB8] + [0] * 11 + [1]), bytes([0x40, 3, 0]), bytes([0x40, 3, 3, 192, 0, 2]),
+                bytes([0x40, 3, 5, 192, 0, 2, 1, 9]), bytes([0x80, 3, 4, 192, 0, 2, 1]), bytes([0x50, 3, 0, 4, 192, 0, 2, 1]), bytes([0x40, 3, 200, 192, 0]), bytes([0x40, 3])]
+    mp_bases = [i for i, b in enumerate(bases) if b['kind'] == 'mp']
+    nnh = 500 if ctx.tier == 'quick' else 12000
+    for j in range(nnh):
+        bi = rng.choice(mp_bases)
+        b = bases[bi]
+        wd, block, nlri = rig.split_body(bodies[bi])
+        ts = rig.base_tlvs(block)
+        form = nh_forms[j % len(nh_forms)]
+        at = rng.randrange(len(ts) + 1)
+        parts = [t['raw'] for t in ts]
+        kind = f'nh-form-{j % len(nh_forms)}'
+        if ts and rng.random() < 0.6:
+            i = rng.randrange(len(ts))
+            k = rng.choice(rig.KINDS)
+            x = one_corrupted(ts, i, k, b['asn4'])
+            if x is not None:
+                parts[i] = x
+                kind += '+' + k
+        parts.insert(at, form)
+        blk = b''.join(parts)
+        cases.append({'asn4': b['asn4'], 'nlri': 'mp', 'code': 3, 'kind': kind, 'body': rig.join_body(wd, blk, nlri), 'origin': 'mp-with-next-hop'})
     # the same corruptions BEHIND many attributes that count for nothing (the same unknown optional non-transitive
     # attribute of no length, repeated: RFC 7606 3.g discards all but the first): how far into the block an attribute
     # sits does not change what it is.  255 / 256 / 257 / 300 / 700 of them in front, and the malformed one in front.
